@@ -11,7 +11,7 @@ import prudp_session as ps
 import l1_corr
 
 LEVEL = "proof"
-EXTRA_TARGETS = ["nxdrv_C02"]
+EXTRA_TARGETS = ["nxdrv_C02", "nxdrv_C15"]
 SERVER_KEY = b"server key"
 
 
@@ -337,7 +337,11 @@ def run(ctx):
                 "phase 2 at ticket age {10,60,110,118 | 122,125,200,3600,86400,3 d} the byte-identical CONNECT (optionally with the SYN, optionally twice) followed by a DATA packet keyed with the "
                 "ticket's session key, or a real client with a new fresh / stale ticket of the same / another user; phase 3 a fresh ticket after the busy handler returned; 3 encodings, pid 4/8, key 16/32, "
                 "ticket version 0/1, 3 zones; oracle = older than 120 s creates nothing and is not acknowledged, whatever is created observes the ticket's user and key and echoes keyed traffic; "
-                "distinct non-trivial = distinct cases")
+                "the server's time zone with daylight saving (c05_dst.py, real code only): %d zones (POSIX rule strings and tz database names; northern / southern, 30 min and 60 min shifts, "
+                "offsets 0, x:30, x:45, +12/+13), virtual clock at {-2d-300 .. 2d+300} around the end (repeated hour) and the start (skipped hour) of DST of a drawn year and in the middle of each season, "
+                "tickets issued {0,60,119 | 121,125, 10 min .. 2 h, d-125 .. d+600, 2d-1 .. 2d+121} s of REAL time before + random instants/ages; oracle = real age > 120 s is never admitted, "
+                "a fresh ticket whose stamp is unambiguous is admitted and observed as its user; "
+                "distinct non-trivial = distinct cases" % len([z for z in __import__("c05_dst").ZONES if __import__("c05_dst").zone_usable(z)]))
     jobs = [(i, c, ctx.rng.getrandbits(32)) for i, c in enumerate(cs)]
     drv = ctx.driver("C02")
     ndiff, first = 0, None
@@ -395,6 +399,61 @@ def run(ctx):
                 ctx.violation("c05:lifecycle:%s:%s:%s" % (spec["name"], spec["enc"], spec["end"]), what,
                               {"spec": spec, "facts": facts, "how": "PYTHONPATH=<repo>:harness /venv/bin/python -c 'import c05_lifecycle as lc; print(lc.run_case(spec))'"})
     ctx.extra["lifecycle_second_request_created_a_connection"] = nlc
+    # the server's time zone as an axis, daylight-saving transitions included (c05_dst.py): the ticket's stamp is a local wall-clock
+    # DateTime, the lifetime is 120 s of REAL time - on both sides of / inside the repeated hour and the skipped hour, and in both seasons
+    import c05_dst as dst
+    dspecs = dst.cases(ctx.rng, quick)
+    dtot = {}
+    dfold = []
+    with multiprocessing.Pool(min(16, os.cpu_count() or 4)) as pool:
+        for spec, bad, facts, err in pool.imap_unordered(dst.work, dspecs, chunksize=1):
+            if err:
+                ctx.corr_break("c05-session-harness", "session crashed in the harness", {"traceback": err, "spec": spec}); continue
+            for k, v in facts.items():
+                if isinstance(v, int) and not isinstance(v, bool): dtot[k] = dtot.get(k, 0) + v
+            if len(dfold) < 4: dfold += [dict(e, tz=spec["tz"]) for e in facts.get("fold_examples", [])[:1]]
+            ctx.case(key=("dst", spec["tz"], spec["base"], spec["enc"], spec["seed"]), nontrivial=True,
+                     tag="%s:%s:%s" % (spec["name"], spec["where"].split(" (")[0].split(" at ")[0], spec["enc"]),
+                     sample={"spec": dict(spec, steps=spec["steps"][:6]), "facts": facts} if spec["seed"] % 29 == 0 else None)
+            for what in bad[:4]:
+                ctx.violation("c05:%s:%s:%s" % (spec["name"], spec["tz"], spec["enc"]), what,
+                              {"spec": spec, "facts": facts, "how": "PYTHONPATH=<repo>:harness /venv/bin/python -c 'import c05_dst as d; print(d.run_case(spec))'"})
+    # tie of the stamp arithmetic the theorems dst_* speak about (C15's zone model, Nx.Nex.Zone): the real DateTime.fromtimestamp /
+    # DateTime.timestamp() of the tree under test in the real zone at instants around each rule change visited above, against the
+    # compiled model with the zone's one-change table; and, on the real code, decoded <= issue instant (what admitted_is_fresh rests on)
+    changes = sorted({(sp["tz"],) + tuple(sp["change"]) for sp in dspecs if sp.get("change")})
+    zdrv = ctx.driver("C15")
+    nst, stamp_diff, later = 0, None, None
+    with multiprocessing.Pool(min(8, os.cpu_count() or 4)) as pool:
+        res = pool.map(dst.stamp_points, [(tz, T, abs(o1 - o0), ctx.rng.getrandbits(32)) for (tz, T, o0, o1) in changes])
+    omap = {(tz, T): (o0, o1) for (tz, T, o0, o1) in changes}
+    for tz, T, pts, err in res:
+        if err:
+            ctx.corr_break("c05-session-harness", "stamp functions crashed in the harness", {"traceback": err, "tz": tz}); continue
+        o0, o1 = omap[(tz, T)]
+        tab = "%d %d %d" % (o0, T, o1)
+        lines, want = [], []
+        for u, v, back in pts:
+            lines.append("dt.zfrom %d %s" % (u, tab)); want.append("ok %d" % v)
+            lines.append("dt.zts %d %s" % (v, tab)); want.append("ok %d" % back if isinstance(back, int) else "err value")
+            if isinstance(back, int) and back > u and later is None:
+                later = {"tz": tz, "instant": u, "stamp": v, "decoded": back}
+        got = zdrv.batch(lines)
+        for ln, w, g in zip(lines, want, got):
+            nst += 1
+            if w != g and stamp_diff is None:
+                stamp_diff = {"tz": tz, "line": ln, "real": w, "model": g}
+        ctx.case(key=("dst-stamp", tz, T), nontrivial=True, tag="dst-stamp-correspondence")
+    ctx.traces_validated += nst
+    ctx.extra["dst_stamp_lines_compared"] = nst
+    if (stamp_diff or later) and not ctx.violations:
+        ctx.corr_break("c05-dst-stamp-correspondence", "the real DateTime stamp functions and the zone model disagree, or a stamp decodes to an instant later than its issue instant",
+                       {"first_diff": stamp_diff, "decoded_later": later, "theorems_no_longer_tied": ["Nx.C05.dst_admitted_is_fresh_partial", "Nx.C05.dst_fresh_is_admitted"]})
+    dtot.pop("table_end", None)
+    ctx.extra["dst_requests"] = dtot
+    ctx.extra["dst_zones"] = sorted({sp["tz"] for sp in dspecs})
+    ctx.extra["dst_fresh_ticket_stamped_in_second_pass_of_repeated_hour"] = {"note": "not judged (the property says 'only if'); the stamp cannot tell the two passes apart",
+                                                                             "admitted": dtot.get("fresh_in_fold_admitted", 0), "refused": dtot.get("fresh_in_fold_refused", 0), "examples": dfold}
     os.environ["TZ"] = "UTC0"; time.tzset()
     # the interpreter's flags are part of the environment: the same verdicts with assertions compiled away (python -O)
     import json, subprocess, sys
